@@ -1300,23 +1300,7 @@ func (rn *runner) flush() {
 	rn.pending = rn.pending[:0]
 }
 
-// endAwayFromFlushTick works around a race in lib/driver.runChild (reported, not ours to edit): the child's
-// periodic result flush (every 2 s, started right before Run) is not joined before the final flush, so a tick
-// that is pending when Run returns can rewrite the result with done=false after the final flush and the parent
-// then reports the shard as died. Returning in the middle of a period makes that practically impossible.
-func endAwayFromFlushTick(t0 time.Time) {
-	const period = 2 * time.Second
-	for {
-		ph := time.Since(t0) % period
-		if ph > 300*time.Millisecond && ph < 1500*time.Millisecond {
-			return
-		}
-		time.Sleep(25 * time.Millisecond)
-	}
-}
-
 func run(c *driver.Ctx) {
-	defer endAwayFromFlushTick(time.Now())
 	race := c.Variant == "race"
 	rn := &runner{c: c}
 	// the directed reproducer runs first, in every run, on shard 0
